@@ -1,7 +1,7 @@
 (** C23 — cryptographic building blocks match their reference definitions.
     Only statements here; proofs live in theories/C23/Proofs.v.  Specs: Rc4.v, Md5.v, Sha2.v,
     Aes.v, Cbc.v, SecHandler.v (each validated by the published vectors as Examples). *)
-From OxVerif Require Import Base.Util C23.Tab C23.Rc4 C23.Md5 C23.Sha2 C23.Aes C23.Cbc C23.SecHandler C23.Model C23.Proofs.
+From OxVerif Require Import Base.Util C23.Tab C23.Rc4 C23.Md5 C23.Sha2 C23.Aes C23.Cbc C23.SecHandler C23.Model C23.Proofs C23.AesInv C23.AesCbc.
 
 (** the RC4 of rc4.rs (as written) is the published RC4, for every non-empty key and all data *)
 Theorem rc4_model_eq_spec : forall key data, key <> [] -> m_rc4 key data = Some (rc4 key data).
@@ -37,8 +37,8 @@ Print Assumptions pkcs7_unpad_pad.
 (** CBC + PKCS#7 round trip for data of every length, over any invertible 16-byte block cipher.
     (Full statement with the FIPS-197 functions substituted needs
        aes_inv : forall k b, key and block are bytes, |k| in {16,32}, |b| = 16 -> inv_cipher k (cipher k b) = b,
-     which is NOT proved; it is validated on the FIPS vectors, on a 64-block sweep and by the
-     correspondence run.  Hence the name.) *)
+     proved below as [aes_inv]; the substituted statements are [aes_cbc_pkcs7_roundtrip],
+     [aes_r6_key_unwrap] and [aes_perms_roundtrip].  The general Section form is kept.) *)
 Theorem cbc_pkcs7_roundtrip_partial : forall (E D : cipherfn),
   (forall k b, length b = 16%nat -> D k (E k b) = b) ->
   (forall k b, length b = 16%nat -> length (E k b) = 16%nat) ->
@@ -150,3 +150,42 @@ Example c23_owner_example :
   alg7_user_pad 3 16 (bytes_of_string "owner") (alg3 3 16 (bytes_of_string "owner") (bytes_of_string "user"))
   = pad32 (bytes_of_string "user").
 Proof. exact owner_recovers_user_pad_example. Qed.
+
+(** * FIPS-197 substituted: InvCipher inverts Cipher, hence the round trips with real AES *)
+
+(** for every 16- or 32-byte key and every 16-byte block of bytes (S-box inverse by a 256-case
+    sweep, ShiftRows structurally, InvMixColumns x MixColumns = I by GF(2)-linearity of the byte maps
+    and the sixteen coefficient identities, key schedule well-formed by an invariant) *)
+Theorem aes_inv : forall key b, key_ok key -> wf b -> inv_cipher key (cipher key b) = b.
+Proof. exact AesInv.aes_inv. Qed.
+Check aes_inv : forall key b, key_ok key -> wf b -> inv_cipher key (cipher key b) = b.
+Print Assumptions aes_inv.
+
+Theorem aes_cbc_pkcs7_roundtrip : forall k iv x, key_ok k -> wf iv -> bytes_ok x = true ->
+  cbc_decrypt inv_cipher k iv (cbc_encrypt cipher k iv x) = Some x.
+Proof. exact AesCbc.aes_cbc_pkcs7_roundtrip. Qed.
+Check aes_cbc_pkcs7_roundtrip : forall k iv x, key_ok k -> wf iv -> bytes_ok x = true ->
+  cbc_decrypt inv_cipher k iv (cbc_encrypt cipher k iv x) = Some x.
+Print Assumptions aes_cbc_pkcs7_roundtrip.
+
+Theorem aes_r6_key_unwrap : forall k fkey, key_ok k -> (length fkey mod 16 = 0)%nat -> bytes_ok fkey = true ->
+  cbc_decrypt_raw inv_cipher k zero_iv (cbc_encrypt_raw cipher k zero_iv fkey) = fkey.
+Proof. exact AesCbc.aes_key_unwrap. Qed.
+Check aes_r6_key_unwrap : forall k fkey, key_ok k -> (length fkey mod 16 = 0)%nat -> bytes_ok fkey = true ->
+  cbc_decrypt_raw inv_cipher k zero_iv (cbc_encrypt_raw cipher k zero_iv fkey) = fkey.
+Print Assumptions aes_r6_key_unwrap.
+
+Theorem aes_perms_roundtrip : forall k P em rnd, key_ok k -> length rnd = 4%nat -> bytes_ok rnd = true ->
+  alg13_plain (alg10 P em rnd k) k = perms_plain P em rnd.
+Proof. exact AesCbc.aes_perms_roundtrip. Qed.
+Check aes_perms_roundtrip : forall k P em rnd, key_ok k -> length rnd = 4%nat -> bytes_ok rnd = true ->
+  alg13_plain (alg10 P em rnd k) k = perms_plain P em rnd.
+Print Assumptions aes_perms_roundtrip.
+
+Example aes_hyps_satisfiable :
+  key_ok (repeat 7%N 32) /\ wf (repeat 200%N 16) /\
+  inv_cipher (repeat 7%N 32) (cipher (repeat 7%N 32) (repeat 200%N 16)) = repeat 200%N 16.
+Proof.
+  split; [split; [right; reflexivity | reflexivity]|].
+  split; [split; reflexivity|]. vm_compute. reflexivity.
+Qed.
